@@ -602,6 +602,8 @@ class Tracer:
     def _ev(self, what, *others):
         log = Tracer.LOG
         log.append((what, self._id) + tuple(_tid(o) for o in others))
+        if len(log) > 300:
+            raise RuntimeError("runaway program in replay")
         if Tracer.SCRIPT.get("fail_at") == len(log) - 1:
             raise TracerError(f"scripted failure at event {len(log) - 1}")
 
@@ -644,7 +646,13 @@ def _mk_tracer_methods():
     def __bool__(self):
         self._ev("bool")
         t = Tracer.SCRIPT.get("truth", {})
-        return bool(t.get(str(self._id), True))
+        v = t.get(str(self._id), True)
+        if isinstance(v, list):
+            cnt = Tracer.SCRIPT.setdefault("_cnt", {})
+            i = cnt.get(str(self._id), 0)
+            cnt[str(self._id)] = i + 1
+            return bool(v[i]) if i < len(v) else False
+        return bool(v)
 
     def __contains__(self, item):
         self._ev("contains", item)
@@ -694,8 +702,16 @@ def _mk_tracer_methods():
         self._ev("keys")
         return ["kk"]
 
+    def __enter__(self):
+        self._ev("enter")
+        return Tracer(f"enter({self._id})")
+
+    def __exit__(self, et, ev, tb):
+        self._ev("exit", "exc" if et is not None else "none")
+        return bool(Tracer.SCRIPT.get("suppress", False))
+
     for f in (__bool__, __contains__, __hash__, __str__, __repr__, __format__, __call__, __getattr__, __setattr__,
-              __setitem__, __delitem__, __iter__, keys):
+              __setitem__, __delitem__, __iter__, keys, __enter__, __exit__):
         setattr(Tracer, f.__name__, f)
     Tracer.__getitem__ = binop("getitem")
 
@@ -706,13 +722,13 @@ _mk_tracer_methods()
 def _snapshot_vars(d):
     out = {}
     for k, v in d.items():
-        if k in ("t", "fn", "__builtins__") or k.startswith("__"):
+        if k in ("t", "fn", "s", "f", "exc_cls", "__builtins__") or k.startswith("__"):
             continue
         out[k] = (type(v).__name__, _tid(v))
     return out
 
 
-async def _run_both(source, mode, script, presets):
+async def _run_both(source, mode, script, presets, extra=None):
     """Run source under CPython and under the real AstEval with the same tracer script; returns the two records."""
     import copy
     from custom_components.pyscript.eval import AstEval
@@ -721,7 +737,8 @@ async def _run_both(source, mode, script, presets):
     recs = []
     for which in ("cpython", "pyscript"):
         Tracer.LOG = []
-        Tracer.SCRIPT = script
+        Tracer.SCRIPT = dict(script)
+        Tracer.SCRIPT.pop("_cnt", None)
         t = lambda i: (Tracer.LOG.append(("Ev", i)), _maybe_fail(), Tracer(i))[2]
 
         def fn(i):
@@ -735,6 +752,16 @@ async def _run_both(source, mode, script, presets):
                 return Tracer(f"call({i})")
             return callee
         g = {"t": t, "fn": fn}
+        if extra and extra.get("s"):
+            g["s"] = lambda i: (Tracer.LOG.append(("stmt", i)), _maybe_fail(), None)[2]
+
+            def exc_cls(i):
+                # the class named by an except clause: matches scripted failures when the operand is 'truthy'
+                Tracer.LOG.append(("Ev", i))
+                _maybe_fail()
+                v = script.get("truth", {}).get(str(i), [True])
+                return TracerError if (v[0] if isinstance(v, list) else v) else KeyError
+            g["exc_cls"] = exc_cls
         g.update({k: (None if script.get("preset_none") else Tracer(f"var:{k}")) for k in presets})
         res, err = None, None
         try:
@@ -800,6 +827,54 @@ async def c01_template(w):
     await shutdown()
     return {"reproduced": bool(diffs), "observed": diffs[:1], "tried": tried, "source": source,
             "expected": "same result, same ordered tracer log, same exception type, same final variables as CPython"}
+
+
+async def c02_template(w):
+    """Differential replay of a statement template.  Child statements _sK become a logged call s(K) or one of
+    break / continue / return; the template runs inside `def f(): for _o in [0]: <template>` so that every
+    completion is legal.  All single-child completion variants x truthiness x failure positions are tried."""
+    import itertools, re, textwrap
+    await boot_full()
+    src = w["source"]
+    kids = sorted(set(int(x) for x in re.findall(r"_c(\d+)", src)))
+    stmts = sorted(set(int(x) for x in re.findall(r"_s(\d+)", src)))
+    variants = [dict()]
+    for k in stmts:
+        for comp in ("break", "continue", "return"):
+            variants.append({k: comp})
+    diffs, tried = [], 0
+    for var in variants:
+        body = re.sub(r"_c(\d+)", r"t(\1)", src)
+
+        def rep(m):
+            k = int(m.group(1))
+            c = var.get(k, "normal")
+            return {"normal": f"s({k})", "break": "break", "continue": "continue", "return": f"return t({100 + k})"}[c]
+        body = re.sub(r"_s(\d+)", rep, body)
+        if re.match(r"\s*return", body) or "\nreturn" in body:
+            pass
+        prog = "def f():\n    for _o in [0]:\n" + textwrap.indent(body, "        ") + "\n        s(99)\n    return t(98)\nresult = f()\n"
+        presets = [n for n in ("x", "y", "e") if re.search(rf"\b{n}\b", src)]
+        for truth in itertools.product([[True, True, False], [False], [True, False]], repeat=min(len(kids), 2)):
+            tmap = {str(k): list(v) for k, v in zip(kids, truth)}
+            for fail_at in [None] + list(range(0, 8)):
+                for iter_len, suppress in ((2, False), (0, False), (2, True)):
+                    script = {"truth": {k: list(v) for k, v in tmap.items()}, "fail_at": fail_at, "iter_len": iter_len,
+                              "suppress": suppress}
+                    tried += 1
+                    c, p = await _run_both(prog, "exec", script, [], extra={"s": True})
+                    if c != p:
+                        diffs.append({"variant": {str(k): v for k, v in var.items()}, "script": script, "program": prog, "cpython": c, "pyscript": p})
+                        break
+                if diffs:
+                    break
+            if diffs:
+                break
+        if diffs:
+            break
+    await shutdown()
+    return {"reproduced": bool(diffs), "observed": diffs[:1], "tried": tried, "source": src,
+            "expected": "same statements in the same order, same result / exception type as CPython"}
 
 
 SCENARIOS = {k: v for k, v in list(globals().items()) if asyncio.iscoroutinefunction(v) and k[0] == "c"}
